@@ -27,7 +27,7 @@ const extraPrelude = `
 (assert (forall ((r Int) (k Int)) (! (=> (and (>= r 128) (<= 0 k) (< k (slen (srune r)))) (>= (sat (srune r) k) 128)) :pattern ((sat (srune r) k)))))
 (declare-fun str_of_bytes ((Array Int Int) Int Int) Str)
 (assert (forall ((a (Array Int Int)) (o Int) (n Int)) (! (=> (<= 0 n) (= (slen (str_of_bytes a o n)) n)) :pattern ((str_of_bytes a o n)))))
-(assert (forall ((a (Array Int Int)) (o Int) (n Int) (k Int)) (! (=> (and (<= 0 k) (< k n) (<= 0 (select a (+ o k))) (<= (select a (+ o k)) 255)) (= (sat (str_of_bytes a o n) k) (select a (+ o k)))) :pattern ((sat (str_of_bytes a o n) k)))))
+(assert (forall ((a (Array Int Int)) (o Int) (n Int) (k Int)) (! (=> (and (<= 0 k) (< k n) (<= 0 (select a (eidx o k))) (<= (select a (eidx o k)) 255)) (= (sat (str_of_bytes a o n) k) (select a (eidx o k)))) :pattern ((sat (str_of_bytes a o n) k)))))
 (declare-fun bytes_of_str (Str) (Array Int Int))
 (assert (forall ((s Str) (k Int)) (! (=> (and (<= 0 k) (< k (slen s))) (= (select (bytes_of_str s) k) (sat s k))) :pattern ((select (bytes_of_str s) k)))))
 (declare-fun runeat (Str Int) Int)
